@@ -146,6 +146,8 @@ type Config struct {
 	ScanPaths  bool          `json:"scanPaths"`
 	Seed       int64         `json:"seed"`
 	VerifyTail uint32        `json:"tail"`
+	CtlYield   bool          `json:"ctlYield,omitempty"`   // vnet: the sender yields after every write on the control stream
+	SmallBelow int64         `json:"smallBelow,omitempty"` // scheduler: files below this many bytes count as small (0: the default of 4 MiB)
 	Watchdog   time.Duration `json:"-"`
 	// faults (vnet only)
 	Fault       *vnet.FaultSpec         `json:"fault,omitempty"`
@@ -191,7 +193,7 @@ func openConns(cfg Config) (*connSet, error) {
 	switch cfg.Transport {
 	case "mock", "vquic", "vlag":
 		for i := 0; i < n; i++ {
-			p := vnet.NewPair(vnet.Options{Mock: cfg.Transport == "mock", Hold: cfg.Transport != "mock", AutoRelease: cfg.Transport != "mock", LagData: cfg.Transport == "vlag", Seed: cfg.Seed + int64(i)})
+			p := vnet.NewPair(vnet.Options{Mock: cfg.Transport == "mock", Hold: cfg.Transport != "mock", AutoRelease: cfg.Transport != "mock", LagData: cfg.Transport == "vlag", YieldOnCtl: cfg.CtlYield, Seed: cfg.Seed + int64(i)})
 			cs.pairs = append(cs.pairs, p)
 			sc = append(sc, p.End(vnet.A))
 			rc = append(rc, p.End(vnet.B))
@@ -363,7 +365,7 @@ func Run(cfg Config, srcRoot, outDir string) (Outcome, error) {
 	rctx, rcancel := context.WithCancel(context.Background())
 	defer scancel()
 	defer rcancel()
-	sopts := transfer.Options{ChunkSize: cfg.ChunkSize, ParallelFiles: cfg.Streams, Resume: cfg.Resume, ResumeVerifyTail: cfg.VerifyTail, NoRootDir: cfg.NoRootDir}
+	sopts := transfer.Options{ChunkSize: cfg.ChunkSize, ParallelFiles: cfg.Streams, Resume: cfg.Resume, ResumeVerifyTail: cfg.VerifyTail, NoRootDir: cfg.NoRootDir, SmallThreshold: cfg.SmallBelow}
 	if cfg.ScanPaths {
 		base := filepath.Base(srcRoot)
 		sopts.ResolveFilePath = func(rel string) string {
